@@ -1235,7 +1235,83 @@ impl Check for C13 {
 // ------------------------------------------------------------------------------------------
 // C14 — completion counts
 
-fn gen_c14(r: &mut Rng, _t: Tier, _job: u64) -> Plan {
+/// A zero-column resultset on which the shim ends a great many rows: the count reported in the
+/// OK passes 2^16, 2^24, 2^31 and (thorough tier only: a few seconds of CPU each) 2^32.
+fn gen_c14_bulk(r: &mut Rng, t: Tier) -> Plan {
+    let n: u64 = match r.below(if t == Tier::Thorough { 5 } else { 3 }) {
+        0 => (1 << 16) - 2 + r.below(5),
+        1 => (1 << 24) - 2 + r.below(5),
+        2 => (1 << 26) + r.below(1000),
+        3 => (1u64 << 32) - 2 + r.below(5),
+        _ => (1u64 << 32) + 7 + r.below(1000),
+    };
+    let mut units = vec![];
+    if r.coin() {
+        units.push(Unit::Count {
+            affected: 5,
+            last_id: 6,
+        });
+    }
+    units.push(Unit::BulkRows { n });
+    if r.coin() {
+        units.push(Unit::Count {
+            affected: 7,
+            last_id: 8,
+        });
+    }
+    let prog = Program {
+        units,
+        end: End::Implicit,
+        ret_err: None,
+        probe_cells: false,
+        pull_params: None,
+        pull_skip: 0,
+    };
+    let mut cmds = Vec::new();
+    if r.coin() {
+        cmds.push(Cmd {
+            seq: 0,
+            kind: CmdKind::Query(Blob::lit(b"update everything")),
+            act: Act::Program(prog),
+        });
+    } else {
+        cmds.push(Cmd {
+            seq: 0,
+            kind: CmdKind::Prepare(Blob::lit(b"p")),
+            act: Act::Prepare(PrepAct::Reply {
+                id: 1,
+                params: vec![],
+                cols: vec![],
+            }),
+        });
+        cmds.push(Cmd {
+            seq: 0,
+            kind: CmdKind::Execute {
+                stmt: 1,
+                flags: 0,
+                iters: 1,
+                block: ParamBlock {
+                    bind: None,
+                    values: vec![],
+                    raw: None,
+                    stale_types: None,
+                },
+            },
+            act: Act::Program(prog),
+        });
+    }
+    cmds.push(Cmd {
+        seq: 0,
+        kind: CmdKind::Ping,
+        act: Act::None,
+    });
+    Plan::basic(cmds)
+}
+
+fn gen_c14(r: &mut Rng, t: Tier, job: u64) -> Plan {
+    if job % 100_000 == 54_321 {
+        return gen_c14_bulk(r, t);
+    }
     let mut cmds = Vec::new();
     let n = 1 + r.usize_below(3);
     for _ in 0..n {
@@ -1304,7 +1380,7 @@ pub fn c14() -> Simple {
         id: "C14",
         decided_by: "inputs (u64 pairs at lenenc cliffs, row counts) x program position",
         rule_text: "one run = 1..3 commands (text and binary) each answered by 1..4 chained completions with (affected_rows, last_insert_id) drawn around 0, 250/251, 2^16, 2^24, 2^64-1 and uniformly, or by zero-column resultsets with 0..1040 ended rows (write_row / end_row, last row ended or not, finish / finish_one / drop); oracle: decoded OK counts equal the given values, zero-column OK carries the number of ended rows, more-results flag on all but the last. Distinct = plan signature.",
-        quick: 500_000,
+        quick: 400_000,
         thorough: 10_000_000,
         budget_q: 60,
         budget_t: 600,
